@@ -59,6 +59,8 @@ def gen_cb(rng: Any, ids: list[int], depth: int, allow_service: bool, p_raise: f
         return cb
     if rng.random() < p_raise:
         cb["raises"] = rng.choice(EXC_KINDS)
+        if cb["pass_exception"] and rng.random() < 0.25:
+            cb["raises"] = "RERAISE"  # the callback re-raises the very exception it was handed (nothing if the exit was clean)
     if depth < 2 and rng.random() < (0.3 if depth == 0 else 0.15):
         for _ in range(rng.randint(1, 2)):
             cb["children"].append(gen_cb(rng, ids, depth + 1, False, p_raise))
@@ -174,10 +176,14 @@ class Run:
         def finish(exc: BaseException | None) -> None:
             if exc is not None:
                 run.raised[cid] = exc
-            run.trace.log("end", cid, raised=describe_exc(exc), interrupted=bool(exc is not None and is_cancellation(exc) and cb["raises"] is None))
+            run.trace.log("end", cid, raised=describe_exc(exc), interrupted=bool(exc is not None and is_cancellation(exc) and cb["raises"] in (None, "RERAISE")))
 
         def maybe_raise() -> None:
-            if cb["raises"]:
+            if cb["raises"] == "RERAISE":
+                got = run.received.get(cid)
+                if isinstance(got, BaseException):
+                    raise got
+            elif cb["raises"]:
                 raise make_exc(cb["raises"], cid)
 
         if cb["kind"] == "sync":
@@ -634,6 +640,8 @@ def features(run: Run) -> dict[str, int]:
         inc("resource_route_multi_type")
     if len(raised_ids) >= 2:
         inc("programs_with_2plus_raising")
+    if any(byid[cid]["raises"] == "RERAISE" and cid in run.raised for cid in order):
+        inc("callback_reraised_block_exception")
     if prog.get("cancel"):
         inc("cancel_runs")
         if any(e.get("interrupted") for e in run.trace.of("end")):
